@@ -66,6 +66,21 @@ pub fn run_c15(a: &Args) {
         let ok = match t[0] {
             "rlenc" => { let n: usize = t[2].parse().unwrap(); let v = if t[1] == "1" { RaceLaps::Laps(n) } else { RaceLaps::Hours(n) }; let b: u8 = v.into(); let back = RaceLaps::from(b); let good = b == 0 || match (t[1], back) { ("1", RaceLaps::Laps(m)) => m == n || (n >= 100 && n <= 1000 && m == n - n % 10), ("2", RaceLaps::Hours(m)) => m == n, _ => false }; println!("{:?} -> {b} -> {:?}", v, back); good },
             "frame" => { let res = roundtrip("C15", t[1] == "C", &unhex(t[2]), None, &mut st); println!("{res}"); st.failures_total == 0 && res == format!("ok:{}", t[2]) },
+            "isi" | "obh" | "lap" | "csc" => {
+                let ms: u64 = t[1].parse().unwrap(); let d = Duration::from_millis(ms);
+                let (p, scale, w, off): (insim::Packet, u64, usize, usize) = match t[0] {
+                    "isi" => (insim::Packet::Isi(Isi { interval: d, ..Default::default() }), 1, 2, 10),
+                    "obh" => (insim::Packet::Obh(Obh { time: d, ..Default::default() }), 10, 2, 6),
+                    "lap" => (insim::Packet::Lap(insim::insim::Lap { ltime: d, ..Default::default() }), 1, 4, 4),
+                    _ => (insim::Packet::Csc(insim::insim::Csc { time: d, ..Default::default() }), 10, 4, 8),
+                };
+                let fits = ms / scale < (1u64 << (8 * w));
+                match encode_p(true, &p) {
+                    Enc::Ok(b) => { let v = (0..w).fold(0u64, |a, i| a | (b[off + i] as u64) << (8 * i)); println!("{ms} ms encodes as {v} x {scale} ms"); fits && v == ms / scale },
+                    Enc::Err => { println!("{ms} ms is refused"); !fits },
+                    Enc::Panic => { println!("{ms} ms panics"); false },
+                }
+            },
             _ => false,
         };
         if ok { println!("PASS"); return } else { println!("FAIL"); std::process::exit(1) }
@@ -114,6 +129,21 @@ pub fn run_c15(a: &Args) {
         match encode_p(true, &insim::Packet::Obh(o)) { Enc::Ok(b) => { let w = b[6] as u64 | (b[7] as u64) << 8; if !fits || w != ms / 10 { st.fail(format!("[C15] Obh time {ms} ms is out of range but was encoded as {w}"), format!("obh {ms}")); } }, Enc::Err => if fits { st.fail(format!("[C15] Obh time {ms} ms refused"), format!("obh {ms}")); }, Enc::Panic => st.fail(format!("[C15] Obh time {ms} ms panics"), format!("obh {ms}")) }
         let i = Isi { interval: Duration::from_millis(ms), ..Default::default() };
         match encode_p(true, &insim::Packet::Isi(i)) { Enc::Ok(_) => st.fail(format!("[C15] Isi interval {ms} ms is out of range but was encoded"), format!("isi {ms}")), Enc::Err => {}, Enc::Panic => st.fail(format!("[C15] Isi interval {ms} ms panics"), format!("isi {ms}")) }
+    }
+    // 32-bit fields beyond their range (u32 x 1 ms: Lap.ltime; u32 x 10 ms: Csc.time): refused, never wrapped modulo 2^32
+    let p32: u64 = 1 << 32;
+    for ms in [p32 - 1, p32, p32 + 83_456, 2 * p32 + 5, 10 * p32 - 10, 10 * p32 - 1, 10 * p32, 10 * p32 + 50, 11 * p32, 1u64 << 40, (1u64 << 42) + 12_340, u64::MAX / 4] {
+        for (name, scale, off) in [("lap", 1u64, 4usize), ("csc", 10u64, 8usize)] {
+            st.evaluations += 1;
+            let d = Duration::from_millis(ms);
+            let p = if name == "lap" { insim::Packet::Lap(insim::insim::Lap { ltime: d, ..Default::default() }) } else { insim::Packet::Csc(insim::insim::Csc { time: d, ..Default::default() }) };
+            let fits = ms / scale < p32;
+            match encode_p(true, &p) {
+                Enc::Ok(b) => { let w = u32::from_le_bytes([b[off], b[off + 1], b[off + 2], b[off + 3]]) as u64; if !fits { st.fail(format!("[C15] {name} time {ms} ms is out of range but was encoded as {w} x {scale} ms"), format!("{name} {ms}")); } else if w != ms / scale { st.fail(format!("[C15] {name} time {ms} ms encodes as {w}, floor is {}", ms / scale), format!("{name} {ms}")); } },
+                Enc::Err => if fits { st.fail(format!("[C15] {name} time {ms} ms refused although it fits"), format!("{name} {ms}")); },
+                Enc::Panic => st.fail(format!("[C15] {name} time {ms} ms panics"), format!("{name} {ms}")),
+            }
+        }
     }
     // 3. boundary-biased 32-bit time fields: Small (hand-written, both scales), Lap (u32 x 1), Csc (u32 x 10)
     let n32 = if a.thorough() { 2_000_000 } else { 40_000 };
